@@ -1,9 +1,350 @@
-/- C18 driver: not written yet -/
+/-
+  C18 driver.  Reads what harness/stdlib.cpp printed (the trees the REAL C entry points of
+  libfive_stdlib.h built when their parameters are free variables), rebuilds every call with
+  the transcription in LibfiveModel/Stdlib.lean from the same arguments, and compares the two
+  trees up to commutativity of + * min max and sharing (DAGs are unfolded to trees).
+
+  Constants are compared as float bits.  Constant folding of the IEEE-exact opcodes is replayed
+  with `Float32`; results of inexact kernels (Eigen's `cos`, `sin`, `sqrt`… on constants, libm
+  `cos` in double) are computed with libm here and then *snapped* to the nearest constant that
+  occurs in the real tree if one lies within 4 ulp(max(|v|,1)); downstream exact folds then use
+  the snapped value.
+
+    ok case <k> <id> <fn> size <n>      |   MISMATCH case <k> <id> <fn> <why>   |   skip …
+-/
 import Driver.Parse
+import LibfiveModel.Stdlib
 
 namespace Driver.C18
+open Libfive Libfive.Stdlib Libfive.Stdlib.SExpr
+
+/-! ### parsing DAG dumps -/
+
+def parseDag (ws : List String) : Option (SExpr × Array Nat) := do
+  -- ws = root :: count :: node tokens, nodes terminated by ";"
+  let (root, rest) ← match ws with
+    | r :: _ :: rest => some (nat! r, rest)
+    | _ => none
+  let mut nodes : Array SExpr := #[]
+  let mut consts : Array Nat := #[]
+  let mut cur : List String := []
+  for t in rest do
+    if t == ";" then
+      let toks := cur.reverse
+      let get := fun (s : String) => nodes.getD (nat! s) SExpr.x
+      let e ← match toks with
+        | [_, "var-x"] => some SExpr.x
+        | [_, "var-y"] => some SExpr.y
+        | [_, "var-z"] => some SExpr.z
+        | [_, "var", n] => some (SExpr.var (nat! n))
+        | [_, "const", h] => (F32.parseHex h).map SExpr.const
+        | [_, "un", op, a] => (Op.ofPName? op).map fun o => SExpr.un o (get a)
+        | [_, "bin", op, a, b] => (Op.ofPName? op).map fun o => SExpr.bin o (get a) (get b)
+        | [_, "remap", t, tx, ty, tz] => some (SExpr.remap (get t) (get tx) (get ty) (get tz))
+        | _ => none
+      if let SExpr.const c := e then consts := consts.push c
+      nodes := nodes.push e
+      cur := []
+    else
+      cur := t :: cur
+  let r ← nodes[root]?
+  return (r, consts)
+
+/-! ### canonical form: commutative operands ordered -/
+
+def rank : SExpr → Nat
+  | const _ => 0 | SExpr.x => 1 | SExpr.y => 2 | SExpr.z => 3 | var _ => 4
+  | un .. => 5 | bin .. => 6 | remap .. => 7
+
+partial def cmp (a b : SExpr) : Ordering :=
+  match a, b with
+  | const c, const d => compare c d
+  | var i, var j => compare i j
+  | un o a1, un p b1 => (compare o.code p.code).then (cmp a1 b1)
+  | bin o a1 a2, bin p b1 b2 => ((compare o.code p.code).then (cmp a1 b1)).then (cmp a2 b2)
+  | remap t1 x1 y1 z1, remap t2 x2 y2 z2 =>
+    (((cmp t1 t2).then (cmp x1 x2)).then (cmp y1 y2)).then (cmp z1 z2)
+  | _, _ => compare (rank a) (rank b)
+
+partial def canon : SExpr → SExpr
+  | un op a => un op (canon a)
+  | bin op a b =>
+    let a' := canon a
+    let b' := canon b
+    if op.isCommutative && cmp b' a' == .lt then bin op b' a' else bin op a' b'
+  | remap t X Y Z => remap (canon t) (canon X) (canon Y) (canon Z)
+  | e => e
+
+partial def render : SExpr → String
+  | const c => "#" ++ F32.toHex (Float32.ofBits c.toUInt32)
+  | SExpr.x => "x" | SExpr.y => "y" | SExpr.z => "z"
+  | var i => s!"v{i}"
+  | un op a => s!"({op.pname} {render a})"
+  | bin op a b => s!"({op.pname} {render a} {render b})"
+  | remap t X Y Z => s!"(remap {render t} {render X} {render Y} {render Z})"
+
+/-- first place where two canonical trees differ -/
+partial def firstDiff (a b : SExpr) : Option (SExpr × SExpr) :=
+  match a, b with
+  | un o a1, un p b1 => if o = p then firstDiff a1 b1 else some (a, b)
+  | bin o a1 a2, bin p b1 b2 =>
+    if o = p then (firstDiff a1 b1).orElse fun _ => firstDiff a2 b2 else some (a, b)
+  | remap t1 x1 y1 z1, remap t2 x2 y2 z2 =>
+    (firstDiff t1 t2).orElse fun _ => (firstDiff x1 x2).orElse fun _ =>
+      (firstDiff y1 y2).orElse fun _ => firstDiff z1 z2
+  | _, _ => if a = b then none else some (a, b)
+
+/-! ### the constant folder (single precision, as `ArrayEvaluator` in `Tree::unary/binary`) -/
+
+def f32 (c : Nat) : Float32 := Float32.ofBits c.toUInt32
+
+def snap (reals : Array Nat) (c : Nat) : Nat :=
+  let v := f32 c
+  if v.isNaN then c else
+  let tol : Float32 := 4.8e-7 * (if v.abs > 1 then v.abs else 1)
+  let best := reals.foldl (fun (acc : Option (Nat × Float32)) r =>
+    let d := (f32 r - v).abs
+    if d ≤ tol then
+      match acc with
+      | some (_, bd) => if d < bd then some (r, d) else acc
+      | none => some (r, d)
+    else acc) none
+  match best with
+  | some (r, _) => r
+  | none => c
+
+def mkFolder (reals : Array Nat) : Folder where
+  un := fun op c =>
+    let v := (F32.ev op (f32 c) 0).toBits.toNat
+    if F32.exactOp op then v else snap reals v
+  bin := fun op a b =>
+    let v := (F32.ev op (f32 a) (f32 b)).toBits.toNat
+    if F32.exactOp op then v else snap reals v
+  lit := snap reals
+
+/-! ### the table of covered functions: (shapes, floats, ints) and the transcription -/
+
+def sigOf : String → Option (Nat × Nat × Nat)
+  | "_union" | "intersection" | "difference" => some (2, 0, 0)
+  | "inverse" => some (1, 0, 0)
+  | "offset" | "shell" => some (1, 1, 0)
+  | "clearance" | "blend_expt" | "blend_expt_unit" | "blend_rough" | "morph" => some (2, 1, 0)
+  | "blend_difference" | "loft" => some (2, 2, 0)
+  | "loft_between" => some (2, 6, 0)
+  | "circle" => some (0, 3, 0)
+  | "ring" => some (0, 4, 0)
+  | "polygon" => some (0, 3, 1)
+  | "rectangle" | "rectangle_exact" | "rectangle_centered_exact" => some (0, 4, 0)
+  | "rounded_rectangle" => some (0, 5, 0)
+  | "triangle" => some (0, 6, 0)
+  | "box_mitered" | "box_mitered_centered" | "box_exact_centered" | "box_exact"
+  | "half_space" => some (0, 6, 0)
+  | "rounded_box" => some (0, 7, 0)
+  | "sphere" => some (0, 4, 0)
+  | "cylinder_z" | "cone_ang_z" | "cone_z" | "torus_z" => some (0, 5, 0)
+  | "pyramid_z" => some (0, 6, 0)
+  | "gyroid" => some (0, 4, 0)
+  | "emptiness" => some (0, 0, 0)
+  | "array_x" => some (1, 1, 1)
+  | "array_xy" => some (1, 2, 2)
+  | "array_xyz" => some (1, 3, 3)
+  | "array_polar_z" => some (1, 2, 1)
+  | "extrude_z" => some (1, 2, 0)
+  | "move" => some (1, 3, 0)
+  | "reflect_x" | "reflect_y" | "reflect_z" | "revolve_y" => some (1, 1, 0)
+  | "reflect_xy" | "reflect_yz" | "reflect_xz" | "symmetric_x" | "symmetric_y"
+  | "symmetric_z" => some (1, 0, 0)
+  | "scale_x" | "scale_y" | "scale_z" => some (1, 2, 0)
+  | "scale_xyz" => some (1, 6, 0)
+  | "rotate_x" | "rotate_y" | "rotate_z" => some (1, 4, 0)
+  | "taper_x_y" | "shear_x_y" => some (1, 5, 0)
+  | "taper_xy_z" => some (1, 6, 0)
+  | "repel" | "repel_x" | "repel_y" | "repel_z" | "repel_xy" | "repel_yz" | "repel_xz"
+  | "attract" | "attract_x" | "attract_y" | "attract_z" | "attract_xy" | "attract_yz"
+  | "attract_xz" => some (1, 5, 0)
+  | "twirl_x" | "twirl_axis_x" | "twirl_y" | "twirl_axis_y" | "twirl_z" | "twirl_axis_z" =>
+    some (1, 5, 0)
+  | _ => none
+
+def build (F : Folder) (fn : String) (s f : Array SExpr) (n : Array Nat) : SExpr :=
+  let S := fun (i : Nat) => s.getD i SExpr.x
+  let P := fun (i : Nat) => f.getD i SExpr.x
+  let N := fun (i : Nat) => n.getD i 0
+  let v2 := fun (i : Nat) => (⟨P i, P (i + 1)⟩ : V2)
+  let v3 := fun (i : Nat) => (⟨P i, P (i + 1), P (i + 2)⟩ : V3)
+  match fn with
+  | "_union" => union F (S 0) (S 1)
+  | "intersection" => intersection F (S 0) (S 1)
+  | "inverse" => inverse F (S 0)
+  | "difference" => difference F (S 0) (S 1)
+  | "offset" => offset F (S 0) (P 0)
+  | "clearance" => clearance F (S 0) (S 1) (P 0)
+  | "shell" => shell F (S 0) (P 0)
+  | "blend_expt" => blend_expt F (S 0) (S 1) (P 0)
+  | "blend_expt_unit" => blend_expt_unit F (S 0) (S 1) (P 0)
+  | "blend_rough" => blend_rough F (S 0) (S 1) (P 0)
+  | "blend_difference" => blend_difference F (S 0) (S 1) (P 0) (P 1)
+  | "morph" => morph F (S 0) (S 1) (P 0)
+  | "loft" => loft F (S 0) (S 1) (P 0) (P 1)
+  | "loft_between" => loft_between F (S 0) (S 1) (v3 0) (v3 3)
+  | "circle" => circle F (P 0) (v2 1)
+  | "ring" => ring F (P 0) (P 1) (v2 2)
+  | "polygon" => polygon F (P 0) (N 0) (v2 1)
+  | "rectangle" => rectangle F (v2 0) (v2 2)
+  | "rounded_rectangle" => rounded_rectangle F (v2 0) (v2 2) (P 4)
+  | "rectangle_exact" => rectangle_exact F (v2 0) (v2 2)
+  | "rectangle_centered_exact" => rectangle_centered_exact F (v2 0) (v2 2)
+  | "triangle" => triangle F (v2 0) (v2 2) (v2 4)
+  | "box_mitered" => box_mitered F (v3 0) (v3 3)
+  | "box_mitered_centered" => box_mitered_centered F (v3 0) (v3 3)
+  | "box_exact_centered" => box_exact_centered F (v3 0) (v3 3)
+  | "box_exact" => box_exact F (v3 0) (v3 3)
+  | "rounded_box" => rounded_box F (v3 0) (v3 3) (P 6)
+  | "sphere" => sphere F (P 0) (v3 1)
+  | "half_space" => half_space F (v3 0) (v3 3)
+  | "cylinder_z" => cylinder_z F (P 0) (P 1) (v3 2)
+  | "cone_ang_z" => cone_ang_z F (P 0) (P 1) (v3 2)
+  | "cone_z" => cone_z F (P 0) (P 1) (v3 2)
+  | "pyramid_z" => pyramid_z F (v2 0) (v2 2) (P 4) (P 5)
+  | "torus_z" => torus_z F (P 0) (P 1) (v3 2)
+  | "gyroid" => gyroid F (v3 0) (P 3)
+  | "emptiness" => emptiness
+  | "array_x" => array_x F (S 0) (N 0) (P 0)
+  | "array_xy" => array_xy F (S 0) (N 0) (N 1) (v2 0)
+  | "array_xyz" => array_xyz F (S 0) (N 0) (N 1) (N 2) (v3 0)
+  | "array_polar_z" => array_polar_z F (S 0) (N 0) (v2 0)
+  | "extrude_z" => extrude_z F (S 0) (P 0) (P 1)
+  | "move" => move F (S 0) (v3 0)
+  | "reflect_x" => reflect_x F (S 0) (P 0)
+  | "reflect_y" => reflect_y F (S 0) (P 0)
+  | "reflect_z" => reflect_z F (S 0) (P 0)
+  | "reflect_xy" => reflect_xy (S 0)
+  | "reflect_yz" => reflect_yz (S 0)
+  | "reflect_xz" => reflect_xz (S 0)
+  | "symmetric_x" => symmetric_x F (S 0)
+  | "symmetric_y" => symmetric_y F (S 0)
+  | "symmetric_z" => symmetric_z F (S 0)
+  | "scale_x" => scale_x F (S 0) (P 0) (P 1)
+  | "scale_y" => scale_y F (S 0) (P 0) (P 1)
+  | "scale_z" => scale_z F (S 0) (P 0) (P 1)
+  | "scale_xyz" => scale_xyz F (S 0) (v3 0) (v3 3)
+  | "rotate_x" => rotate_x F (S 0) (P 0) (v3 1)
+  | "rotate_y" => rotate_y F (S 0) (P 0) (v3 1)
+  | "rotate_z" => rotate_z F (S 0) (P 0) (v3 1)
+  | "taper_x_y" => taper_x_y F (S 0) (v2 0) (P 2) (P 3) (P 4)
+  | "taper_xy_z" => taper_xy_z F (S 0) (v3 0) (P 3) (P 4) (P 5)
+  | "shear_x_y" => shear_x_y F (S 0) (v2 0) (P 2) (P 3) (P 4)
+  | "repel" => repel F (S 0) (v3 0) (P 3) (P 4)
+  | "repel_x" => repel_x F (S 0) (v3 0) (P 3) (P 4)
+  | "repel_y" => repel_y F (S 0) (v3 0) (P 3) (P 4)
+  | "repel_z" => repel_z F (S 0) (v3 0) (P 3) (P 4)
+  | "repel_xy" => repel_xy F (S 0) (v3 0) (P 3) (P 4)
+  | "repel_yz" => repel_yz F (S 0) (v3 0) (P 3) (P 4)
+  | "repel_xz" => repel_xz F (S 0) (v3 0) (P 3) (P 4)
+  | "attract" => attract F (S 0) (v3 0) (P 3) (P 4)
+  | "attract_x" => attract_x F (S 0) (v3 0) (P 3) (P 4)
+  | "attract_y" => attract_y F (S 0) (v3 0) (P 3) (P 4)
+  | "attract_z" => attract_z F (S 0) (v3 0) (P 3) (P 4)
+  | "attract_xy" => attract_xy F (S 0) (v3 0) (P 3) (P 4)
+  | "attract_yz" => attract_yz F (S 0) (v3 0) (P 3) (P 4)
+  | "attract_xz" => attract_xz F (S 0) (v3 0) (P 3) (P 4)
+  | "revolve_y" => revolve_y F (S 0) (P 0)
+  | "twirl_x" => twirl_x F (S 0) (P 0) (P 1) (v3 2)
+  | "twirl_axis_x" => twirl_axis_x F (S 0) (P 0) (P 1) (v3 2)
+  | "twirl_y" => twirl_y F (S 0) (P 0) (P 1) (v3 2)
+  | "twirl_axis_y" => twirl_axis_y F (S 0) (P 0) (P 1) (v3 2)
+  | "twirl_z" => twirl_z F (S 0) (P 0) (P 1) (v3 2)
+  | "twirl_axis_z" => twirl_axis_z F (S 0) (P 0) (P 1) (v3 2)
+  | _ => SExpr.const 0x7fc00000
+
+/-! ### line protocol -/
+
+structure CallRec where
+  fn : String
+  first : Nat
+  count : Nat
+  ints : Array Nat
+  shapes : Array Nat
+  sym : Bool
+
+structure St where
+  case : String := "?"
+  trees : List (Nat × SExpr) := []
+  calls : List (Nat × CallRec) := []
+  out : Array String := #[]
+
+def lookup {β} (k : Nat) : List (Nat × β) → Option β
+  | [] => none
+  | (j, v) :: r => if j = k then some v else lookup k r
+
+def clip (s : String) (n : Nat := 600) : String := if s.length > n then (s.take n).toString ++ "…" else s
+
+/-- parse `call <id> <fn> <mode> vars <first> <count> ints <n> … shapes <m> …` -/
+def parseCall (ws : List String) : Option (Nat × CallRec) :=
+  match ws with
+  | id :: fn :: mode :: "vars" :: first :: count :: "ints" :: ni :: rest =>
+    let ni := nat! ni
+    let ints := (rest.take ni).map nat!
+    match rest.drop ni with
+    | "shapes" :: _ :: ids =>
+      some (nat! id, { fn := fn, first := nat! first, count := nat! count, ints := ints.toArray,
+                       shapes := (ids.map nat!).toArray, sym := mode == "sym" })
+    | _ => none
+  | _ => none
+
+def selfTest : Array String :=
+  let chk (name : String) (c : SExpr) (v : Float32) : Option String :=
+    match c with
+    | SExpr.const b => if f32 b == v then none else some s!"MISMATCH literal {name} is not {v}"
+    | _ => some s!"MISMATCH literal {name}"
+  #[chk "c0" c0 0, chk "c1" c1 1, chk "c2" c2 2, chk "c4" c4 4, chk "cNeg1" cNeg1 (-1),
+    chk "c2_75" c2_75 2.75, chk "cInf" cInf (1 / 0)].filterMap id
+
+def step (st : St) (line : String) : St :=
+  match words line with
+  | "case" :: k :: _ => { st with case := k, trees := [], calls := [] }
+  | "call" :: rest =>
+    match parseCall rest with
+    | some (id, c) => { st with calls := (id, c) :: st.calls }
+    | none => { st with out := st.out.push s!"MISMATCH case {st.case} unparsable call line: {clip line 200}" }
+  | "error" :: rest =>
+    { st with out := st.out.push s!"MISMATCH case {st.case} harness error: {clip (" ".intercalate rest) 200}" }
+  | "dump" :: id :: "dag" :: rest =>
+    let id := nat! id
+    match parseDag rest with
+    | none => { st with out := st.out.push s!"MISMATCH case {st.case} {id} unparsable dag (apply/oracle/invalid node?)" }
+    | some (real, consts) =>
+      let st := { st with trees := (id, real) :: st.trees }
+      match lookup id st.calls with
+      | none => st
+      | some c =>
+        if !c.sym then st else
+        match sigOf c.fn with
+        | none => { st with out := st.out.push s!"skip case {st.case} {id} {c.fn} not-transcribed" }
+        | some (ns, nf, ni) =>
+          if ns != c.shapes.size || nf != c.count || ni != c.ints.size then
+            let msg := s!"MISMATCH case {st.case} {id} {c.fn} signature: model ({ns},{nf},{ni}) real ({c.shapes.size},{c.count},{c.ints.size})"
+            { st with out := st.out.push msg }
+          else
+            let shapes := c.shapes.map fun sid => lookup sid st.trees
+            if shapes.any Option.isNone then
+              { st with out := st.out.push s!"skip case {st.case} {id} {c.fn} shape-argument-not-dumped" }
+            else
+              let shapes := shapes.map fun o => o.getD SExpr.x
+              let params := (Array.range c.count).map fun j => SExpr.var (c.first + j)
+              let F := mkFolder consts
+              let model := canon (build F c.fn shapes params c.ints)
+              let realc := canon real
+              if model = realc then
+                { st with out := st.out.push s!"ok case {st.case} {id} {c.fn} size {real.size}" }
+              else
+                let d := match firstDiff model realc with
+                  | some (m, r) => s!"model {clip (render m) 300} real {clip (render r) 300}"
+                  | none => "?"
+                { st with out := st.out.push s!"MISMATCH case {st.case} {id} {c.fn} first-difference {d}" }
+  | _ => st
 
 def run (_args : List String) (lines : Array String) : Array String :=
-  #[s!"MISMATCH driver-not-implemented {lines.size}"]
+  selfTest ++ (lines.foldl step {}).out
 
 end Driver.C18
